@@ -103,8 +103,17 @@ def _run_entry(e: dict, budget: int) -> dict:
         # generated, untracked file
         shutil.copy("/repo/src/easynetwork/version.py", os.path.join(wt, "src", "easynetwork", "version.py"))
         if e["kind"] == "revert-fix":
-            diff = subprocess.run(["git", "-C", "/repo", "show", "--format=", e["commit"], "--", "src"], capture_output=True, text=True, check=True).stdout
-            ap = subprocess.run(["git", "-C", wt, "apply", "-R", "--3way", "-"], input=diff, capture_output=True, text=True)
+            # later fix commits that touched the same files are reverted first (newest first), then the target
+            files = subprocess.run(["git", "-C", "/repo", "show", "--format=", "--name-only", e["commit"], "--", "src"], capture_output=True, text=True, check=True).stdout.split()
+            later = subprocess.run(["git", "-C", "/repo", "log", "--format=%h", f"{e['commit']}..HEAD", "--", *files], capture_output=True, text=True, check=True).stdout.split()
+            ap = None
+            for c in [*later, e["commit"]]:
+                diff = subprocess.run(["git", "-C", "/repo", "show", "--format=", c, "--", *files], capture_output=True, text=True, check=True).stdout
+                ap = subprocess.run(["git", "-C", wt, "apply", "-R", "-"], input=diff, capture_output=True, text=True)
+                if ap.returncode != 0:
+                    break
+            e = {**e, "also_reverted": later}
+            assert ap is not None
         else:
             ap = subprocess.run(["git", "-C", wt, "apply", "--3way", e["patch"]], capture_output=True, text=True)
         if ap.returncode != 0:
